@@ -184,10 +184,29 @@ def guarded(replay_of=None):
     def deco(fn):
         @functools.wraps(fn)
         def wrapper(ctx, *a, **k):
+            armed = _arm_runaway_guard()
             try:
                 return fn(ctx, *a, **k)
             except env.Inconclusive:
                 raise
+            except CaseRunsAway as e:
+                rp = None
+                if replay_of is not None:
+                    try:
+                        rp = replay_of(*a, **k)
+                    except Exception:
+                        rp = None
+                if e.args and e.args[0]:
+                    ctx.violation(ctx.prop, 'CaseGuard', 'case-does-not-terminate-inside-sigtools',
+                                  'the case %s used %d CPU seconds (cases take milliseconds) and was last seen inside sigtools (%s): it does not terminate' % (
+                                      fn.__name__, RUNAWAY_CPU_SECONDS, e.args[0]),
+                                  {'case': fn.__name__, 'arguments': repr(a)[:600], 'where': e.args[0]},
+                                  rp or dict(workload='case', function=fn.__name__, arguments=repr(a)[:600]))
+                else:
+                    ctx.inconclusive.append('case %s used %d CPU seconds outside sigtools' % (fn.__name__, RUNAWAY_CPU_SECONDS))
+                # (more of the same would only run into the shard's backstop: what was recorded is handed in now)
+                ctx.deadline = ctx.clock() - 1
+                return None
             except Exception as e:
                 tb = traceback.extract_tb(e.__traceback__)
                 inside = [fr for fr in tb if env.in_sigtools(fr.filename)]
@@ -210,8 +229,58 @@ def guarded(replay_of=None):
                 from . import monitor
                 monitor.INTERNAL_ERRORS.append((fn.__name__, 'CaseGuard', traceback.format_exc()))
                 return None
+            finally:
+                if armed:
+                    _disarm_runaway_guard()
         return wrapper
     return deco
+
+
+# A case that never comes back (a loop that follows a chain which leads back to itself, ...) would otherwise only
+# be ended by the shard's wall-clock backstop, as an inconclusive run.  The guard counts the CPU time of the process
+# itself (ITIMER_VIRTUAL: not inflated by other load), four orders of magnitude above what a case takes.
+RUNAWAY_CPU_SECONDS = 90
+
+
+class CaseRunsAway(BaseException):
+    pass
+
+
+def _runaway_handler(signum, frame):
+    where = None
+    f = frame
+    while f is not None:
+        if env.in_sigtools(f.f_code.co_filename):
+            where = '%s:%d in %s' % (os.path.basename(f.f_code.co_filename), f.f_lineno, f.f_code.co_name)
+            break
+        f = f.f_back
+    raise CaseRunsAway(where)
+
+
+_guard_depth = [0]
+
+
+def _arm_runaway_guard():
+    import signal
+    import threading
+    if threading.current_thread() is not threading.main_thread() or _guard_depth[0]:
+        return False
+    try:
+        signal.signal(signal.SIGVTALRM, _runaway_handler)
+        signal.setitimer(signal.ITIMER_VIRTUAL, RUNAWAY_CPU_SECONDS)
+    except (ValueError, OSError, AttributeError):
+        return False
+    _guard_depth[0] = 1
+    return True
+
+
+def _disarm_runaway_guard():
+    import signal
+    _guard_depth[0] = 0
+    try:
+        signal.setitimer(signal.ITIMER_VIRTUAL, 0)
+    except (ValueError, OSError):
+        pass
 
 
 # ------------------------------------------------------------ known findings
